@@ -92,6 +92,7 @@ type Explorer struct {
 	violSeen map[string]bool
 	maxViol  int
 	threads  *sched
+	known    map[*Term]*Term // term -> constant implied by an equality on the path
 }
 
 var ex *Explorer
@@ -117,6 +118,7 @@ func (e *Explorer) beginPath(item WorkItem) {
 	e.inputSet = map[string]bool{}
 	e.nameCnt = map[string]int{}
 	e.steps = 0
+	e.known = map[*Term]*Term{}
 	e.trace = e.trace[:0]
 	if e.solver != nil {
 		e.solver.Pop(e.solver.depth)
@@ -127,6 +129,11 @@ func (e *Explorer) beginPath(item WorkItem) {
 func (e *Explorer) addPC(t *Term) {
 	if t.IsTrue() {
 		return
+	}
+	if t.Op == OEq && t.B != nil && t.B.IsConst() && !t.A.IsConst() && t.A.Sort == SBV {
+		e.known[t.A] = t.B
+	} else if t.Op == OEq && t.A != nil && t.A.IsConst() && !t.B.IsConst() && t.B.Sort == SBV {
+		e.known[t.B] = t.A
 	}
 	e.pc = append(e.pc, t)
 	if e.solver != nil {
@@ -229,7 +236,10 @@ func (e *Explorer) Branch(cond *Term) bool {
 }
 
 // Split concretises t (a bit-vector) by enumerating its feasible values.
-func (e *Explorer) Split(t *Term) uint64 {
+func (e *Explorer) Split(t *Term) uint64 { return e.SplitN(t, e.splitMax) }
+
+// SplitN is Split with an explicit bound on the number of values.
+func (e *Explorer) SplitN(t *Term, splitMax int) uint64 {
 	if t.IsConst() {
 		return t.K
 	}
@@ -268,8 +278,8 @@ func (e *Explorer) Split(t *Term) uint64 {
 	// enumerate the other values
 	excl := []*Term{Not(Cmp(OEq, t, BV(v0, t.W)))}
 	for n := 0; ; n++ {
-		if n >= e.splitMax {
-			e.inconclusive(fmt.Sprintf("split domain larger than %d", e.splitMax))
+		if n >= splitMax {
+			e.inconclusive(fmt.Sprintf("split domain larger than %d", splitMax))
 			break
 		}
 		r, m := e.solver.Check(excl...)
@@ -292,6 +302,44 @@ func (e *Explorer) Split(t *Term) uint64 {
 	e.path = append(e.path, Decision{'s', int64(v0)})
 	e.addPC(Cmp(OEq, t, BV(v0, t.W)))
 	return v0
+}
+
+// SplitFresh case-splits a fresh (otherwise unconstrained) variable over
+// lo..hi without consulting the solver: every value is feasible because the
+// path condition does not mention the variable yet.
+func (e *Explorer) SplitFresh(v *Term, lo, hi int64) int64 {
+	if v.IsConst() { // concrete mode
+		return sext64(v.K, v.W)
+	}
+	e.stats.Splits++
+	if e.pos < len(e.prefix) {
+		d := e.prefix[e.pos]
+		e.pos++
+		if d.Kind != 's' {
+			panic(fmt.Sprintf("engine: non-deterministic replay (expected %c, got split) at decision %d", d.Kind, e.pos-1))
+		}
+		e.path = append(e.path, d)
+		e.addPC(Cmp(OEq, v, BV(uint64(d.Choice), v.W)))
+		return d.Choice
+	}
+	base := e.model.vals
+	for val := hi; val > lo; val-- {
+		m := make(map[string]uint64, len(base)+1)
+		for k, x := range base {
+			m[k] = x
+		}
+		m[v.Name] = uint64(val) & mask(v.W)
+		e.work = append(e.work, WorkItem{Prefix: clonePath(e.path, Decision{'s', val}), Model: m})
+	}
+	m := make(map[string]uint64, len(base)+1)
+	for k, x := range base {
+		m[k] = x
+	}
+	m[v.Name] = uint64(lo) & mask(v.W)
+	e.setModel(m)
+	e.path = append(e.path, Decision{'s', lo})
+	e.addPC(Cmp(OEq, v, BV(uint64(lo), v.W)))
+	return lo
 }
 
 // Assume adds cond to the path condition; ends the path if infeasible.
